@@ -1,6 +1,7 @@
 from __future__ import annotations
 
 import json
+import os
 import os.path
 from pathlib import Path
 from typing import Any, Literal, Optional
@@ -208,8 +209,12 @@ class LocalDirectoryContext(Context):
                         lines.append(line)
                 if not found:
                     lines.append(f'{name} {annotation}\n')
-            with open(path, 'w') as fh:
+            # NOTE: Never truncate the file in place: a crash during the write
+            # would lose the annotations of all other models
+            tmppath = path.with_name(path.name + '.tmp')
+            with open(tmppath, 'w') as fh:
                 fh.writelines(lines)
+            os.replace(tmppath, path)
 
     def retrieve_annotation(self, name: str) -> str:
         path = self._annotations_path
